@@ -147,6 +147,7 @@ PROPS["C06"] = {
          "quick": {"params": "keys=3,constraints=1,leadnonkey=1", "workers": 16, "timeout": 1800},
          "thorough": {"params": "keys=4,constraints=2", "workers": 16, "timeout": 7200}},
         {"pkg": ".", "dir": "s3db", "entry": "VerifH_C20_notnull", "quick": {"workers": 4, "timeout": 600}},
+        {"pkg": ".", "dir": "s3db", "entry": "VerifH_C20_rowid", "no_native": True, "quick": {"workers": 4, "timeout": 600}},
         {"pkg": ".", "dir": "s3db", "entry": "VerifH_C06_txn_same_time",
          "quick": {"params": "stmts=2", "workers": 8, "timeout": 600},
          "thorough": {"params": "stmts=3", "workers": 16, "timeout": 1800}},
@@ -302,6 +303,7 @@ PROPS["C20"] = {
         {"pkg": ".", "dir": "s3db", "entry": "VerifH_C20_schema", "no_native": True, "reach": ["end", "accepted"],
          "quick": {"workers": 16, "timeout": 1200}},
         {"pkg": ".", "dir": "s3db", "entry": "VerifH_C20_notnull", "quick": {"workers": 4, "timeout": 600}},
+        {"pkg": ".", "dir": "s3db", "entry": "VerifH_C20_rowid", "no_native": True, "quick": {"workers": 4, "timeout": 600}},
         {"pkg": "sqlite", "dir": "sqlite", "entry": "VerifH_C20_connect", "extra": [("s3db_export", ".")], "no_native": True,
          "quick": {"workers": 4, "timeout": 600}},
     ],
